@@ -548,6 +548,12 @@ func (in *Interp) applyFunc(f FuncV, args []Value, pos token.Pos) Value {
 	if !in.Home(path) && f.Fn.Name() == "init" {
 		return nil
 	}
+	// plain arithmetic on a width (expr.Width.Bits) is interpreted, not cut
+	if recv := f.Fn.Signature.Recv(); recv != nil && f.Fn.Blocks != nil {
+		if n, ok := recv.Type().(*types.Named); ok && n.Obj().Name() == "Width" && n.Obj().Pkg() != nil && strings.HasSuffix(n.Obj().Pkg().Path(), "/pkg/expr") && len(f.Fn.Blocks) == 1 {
+			return in.Call(f.Fn, f.Bind, args)
+		}
+	}
 	if pre, ok := in.Cut(path); ok {
 		name := f.Fn.Name()
 		if o := f.Fn.Origin(); o != nil {
